@@ -57,10 +57,10 @@ func TestDebugReplay(t *testing.T) {
 		fmt.Printf("stuck=%v clientErr=%q proxyErrs=%v\n", run.Stuck, run.ClientErr, run.ProxyErrs)
 		fmt.Printf("db statements: %q\n", pw.DB.Statements)
 		for i, r := range run.Results {
-			fmt.Printf("res %d %q: err=%q ready=%v rows=%q msgs=%v\n", i, script[i].SQL, r.Err, r.Ready, r.Rows, r.Messages)
+			fmt.Printf("res %d %q: err=%q ready=%v rows=%.60q msgs=%v fields=%v\n", i, script[i].SQL, r.Err, r.Ready, r.Rows, r.Messages, r.Fields)
 		}
 	}
-	res := map[string]kernel.Property{"C04": C04{}, "C05": C05{}}[rp.Plan.Prop].Run(t, rp.Plan, true)
+	res := map[string]kernel.Property{"C04": C04{}, "C05": C05{}, "C09": C09{}, "C11": C11{}, "C19": C19{}}[rp.Plan.Prop].Run(t, rp.Plan, true)
 	for _, v := range res.Violations {
 		fmt.Println("VIOL", v.Class(), v.Detail)
 	}
